@@ -411,8 +411,9 @@ func (c progCase) run(shared *genesis) progResult {
 
 // minimise brings a diverging case into a canonical small form (deterministic function of the input):
 // prefer one block, prefer the plain deployment, drop snippets greedily (left to right, to a fixpoint),
-// replace a snippet by the first snippet preceding it in the grammar for which the case still diverges in
-// the same field; transactions after the first disagreement are dropped.
+// replace a snippet by the first snippet preceding it in the grammar; every accepted candidate must diverge
+// in the same first field as the case that was found (so that one defect is not filed under the signature
+// of another one it happens to contain); transactions after the first disagreement are dropped.
 func (c progCase) minimise(shared *genesis, memo map[string]string) (progCase, progResult) {
 	cur := c
 	cur.Txs = 3
@@ -440,12 +441,12 @@ func (c progCase) minimise(shared *genesis, memo map[string]string) (progCase, p
 	if cur.Blocks == "split" {
 		cand := cur
 		cand.Blocks = "same"
-		try(cand, false)
+		try(cand, true)
 	}
 	if cur.Deploy == "ctor" {
 		cand := cur
 		cand.Deploy = "plain"
-		try(cand, false)
+		try(cand, true)
 	}
 	removal := func() {
 		for changed := true; changed; {
@@ -453,7 +454,7 @@ func (c progCase) minimise(shared *genesis, memo map[string]string) (progCase, p
 			for i := 0; i < len(cur.Snippets); i++ {
 				cand := cur
 				cand.Snippets = append(append([]string(nil), cur.Snippets[:i]...), cur.Snippets[i+1:]...)
-				if try(cand, false) {
+				if try(cand, true) {
 					changed = true
 					i--
 				}
